@@ -100,7 +100,29 @@ static uintptr_t dlog[4096];
 static int ndlog;
 static dispatch_group_t grp;
 
+// watchdog: PROGRESS based (not elapsed time): the process gives up only when nothing at all has happened for stall_s seconds
+// (a probe, a script operation, a destructor call, a finished item each count as progress).  C18_SLOW=<n> scales every limit.
+static volatile long progress;
+static int slow = 1, stall_s = 20;
+#define PROGRESS() __atomic_fetch_add(&progress, 1, __ATOMIC_RELAXED)
+static void *watchdog(void *arg) {
+	(void)arg;
+	long last = -1; int idle = 0;
+	for (;;) {
+		sleep(1);
+		long now = __atomic_load_n(&progress, __ATOMIC_RELAXED);
+		if (now != last) { last = now; idle = 0; continue; }
+		if (++idle >= stall_s) { printf("E stalled\n"); fflush(stdout); _exit(3); }
+	}
+	return NULL;
+}
+// wait (progress based) until cond holds: gives up only after stall_s seconds in which the global progress counter did not move
+#define WAIT_UNTIL_S(cond, secs) do { long _l = -1; int _idle = 0; while (!(cond)) { usleep(200); long _n = __atomic_load_n(&progress, __ATOMIC_RELAXED); \
+	if (_n != _l) { _l = _n; _idle = 0; } else if (++_idle > (secs) * 5000) break; } } while (0)
+#define WAIT_UNTIL(cond) WAIT_UNTIL_S(cond, stall_s)
+
 static void destructor(void *ctxt) {
+	PROGRESS();
 	int i = __atomic_fetch_add(&ndlog, 1, __ATOMIC_SEQ_CST);
 	if (i < 4096) dlog[i] = (uintptr_t)ctxt;
 }
@@ -108,7 +130,7 @@ static void destructor(void *ctxt) {
 // exit status of a child that calls f(q): 0 = returned, else the signal that killed it (or 1000+status)
 static int in_child(void (*f)(dispatch_queue_t), dispatch_queue_t q) {
 	pid_t p = fork();
-	if (p == 0) { alarm(10); f(q); _exit(0); }
+	if (p == 0) { alarm(60 * (unsigned)slow); f(q); _exit(0); }     // the child only reads a word and walks the frames
 	if (p < 0) return -1;
 	int st = 0;
 	while (waitpid(p, &st, 0) < 0 && errno == EINTR) { }
@@ -120,6 +142,7 @@ static void submit(item_t *it);
 
 static void probe_now(item_t *it, size_t iter) {
 	int pi = __atomic_fetch_add(&nprobes, 1, __ATOMIC_SEQ_CST);
+	PROGRESS();
 	if (pi >= MAXP) return;
 	probe_t *p = &probes[pi];
 	p->iid = it->iid; p->iter = (int)iter;
@@ -144,6 +167,7 @@ static void probe_now(item_t *it, size_t iter) {
 		for (int i = 0; i < ntab; i++) {
 			p->aq[i] = in_child(dispatch_assert_queue, tab[i].q);
 			p->anq[i] = in_child(dispatch_assert_queue_not, tab[i].q);
+			PROGRESS();
 		}
 	}
 }
@@ -155,7 +179,7 @@ static void item_body(item_t *it, size_t iter) {
 static void item_body_f(void *ctxt) { item_body(ctxt, 0); __atomic_fetch_sub(&outstanding, 1, __ATOMIC_SEQ_CST); }
 static void item_body_sync_f(void *ctxt) { item_body(ctxt, 0); }
 static void item_body_apply_f(void *ctxt, size_t i) { item_body(ctxt, i); }
-static void blocker_f(void *ctxt) { (void)ctxt; usleep(4000); __atomic_fetch_sub(&outstanding, 1, __ATOMIC_SEQ_CST); }
+static void blocker_f(void *ctxt) { (void)ctxt; usleep(4000); PROGRESS(); __atomic_fetch_sub(&outstanding, 1, __ATOMIC_SEQ_CST); }
 
 static void submit(item_t *it) {
 	dispatch_queue_t q = it->qid == -1 ? DISPATCH_APPLY_AUTO : Q(it->qid);
@@ -201,8 +225,8 @@ static void submit(item_t *it) {
 }
 
 static void wait_idle(void) {
-	int spins = 0;
-	while (__atomic_load_n(&outstanding, __ATOMIC_SEQ_CST) > 0) { usleep(100); if (++spins > 200000) { printf("E hung\n"); fflush(stdout); _exit(3); } }
+	WAIT_UNTIL(__atomic_load_n(&outstanding, __ATOMIC_SEQ_CST) <= 0);
+	if (__atomic_load_n(&outstanding, __ATOMIC_SEQ_CST) > 0) { printf("E hung\n"); fflush(stdout); _exit(3); }
 }
 
 // requests executed by the main thread at top level (ctx M)
@@ -243,11 +267,12 @@ static void print_graph(void) {
 
 static void *driver(void *arg) {
 	(void)arg;
-	if (mode_dm) { int n = 0; while (_dispatch_queue_is_thread_bound(&_dispatch_main_q) && n++ < 20000) usleep(100); }
+	if (mode_dm) { int n = 0; while (_dispatch_queue_is_thread_bound(&_dispatch_main_q) && n++ < 100000 * slow) { usleep(100); if (n % 1000 == 0) PROGRESS(); } }
 	print_graph();
 	int printed = 0;
 	for (int li = 0; li < nscript; li++) {
 		char *l = script[li];
+		PROGRESS();
 		if (l[0] == 'S') {
 			int qid, k; unsigned long v; int d;
 			sscanf(l + 1, "%d %d %lu %d", &qid, &k, &v, &d);
@@ -269,7 +294,7 @@ static void *driver(void *arg) {
 			if (it->ctxkind == 2) continue;   // performed by its outer item
 			if (it->ctxkind == 1) {
 				mailbox = it;
-				while (mailbox) usleep(100);
+				WAIT_UNTIL(!mailbox);
 			} else {
 				submit(it);
 			}
@@ -285,13 +310,14 @@ static void *driver(void *arg) {
 				if (dx_metatype(created[i]) == _DISPATCH_WORKLOOP_TYPE) dispatch_release((dispatch_workloop_t)created[i]); else dispatch_release(created[i]);
 				created[i] = NULL;
 			}
-			int n = 0;
-			while (__atomic_load_n(&ndlog, __ATOMIC_SEQ_CST) < want && n++ < 20000) usleep(100);
+			// destructors are posted asynchronously on a root queue: wait for the hinted number (up to 3 s, times C18_SLOW, without any
+			// progress), then a little longer to catch calls that should not come
+			WAIT_UNTIL_S(__atomic_load_n(&ndlog, __ATOMIC_SEQ_CST) >= want, 3 * slow);
 			usleep(20000);
 		} else if (l[0] == 'Y') {
 			// wait for posted destructors: Y <count>
-			int want = 0, n = 0; sscanf(l + 1, "%d", &want);
-			while (__atomic_load_n(&ndlog, __ATOMIC_SEQ_CST) < want && n++ < 20000) usleep(100);
+			int want = 0; sscanf(l + 1, "%d", &want);
+			WAIT_UNTIL_S(__atomic_load_n(&ndlog, __ATOMIC_SEQ_CST) >= want, 3 * slow);
 			usleep(5000);
 			printf("Z");
 			int m = __atomic_load_n(&ndlog, __ATOMIC_SEQ_CST);
@@ -312,7 +338,9 @@ int main(void) {
 	buf[n] = 0;
 	setenv("LIBDISPATCH_LOG", "NO", 1);
 	main_thread = pthread_self();
-	alarm(30);
+	if (getenv("C18_SLOW")) { slow = atoi(getenv("C18_SLOW")); if (slow < 1) slow = 1; }
+	stall_s = 20 * slow;
+	{ pthread_t wd; pthread_create(&wd, NULL, watchdog, NULL); }
 	grp = dispatch_group_create();
 	the_source = dispatch_source_create(DISPATCH_SOURCE_TYPE_TIMER, 0, 0, dispatch_get_global_queue(0, 0));
 	char *save = NULL;
